@@ -72,6 +72,28 @@ def stageSizes (E : Ext) (p : ParmSpec) : Nat → List FName → List Nat → Li
       | _ => [d.length]
     | _ => []
 
+/-- where the model's bounded path panics (for narrow known-finding matchers): the ASCII85 group
+value (u32 overflow) or `bpc * colors` of the PNG predictor (usize overflow) -/
+def panicSite (E : Ext) (L : Nat) (p : ParmSpec) : Nat → List FName → List Nat → String
+  | _, [], _ => "unexplained"
+  | i, f :: fs, input =>
+    let parms := filterParams p i
+    let dec : Res (List Nat) := match f with
+      | .flate => decodeFlateWithLimit E input L
+      | .hex => hexDec L input
+      | .a85 => a85Dec L input
+      | .lzw => lzwDec L (earlyChange parms) input
+      | .rl => rlDec L input
+      | _ => .err .decode
+    match dec with
+    | .panic _ => if f == .a85 then "a85-group-value" else "unexplained"
+    | .ok _ =>
+      match boundedStage E L input f parms with
+      | .panic _ => "png-bpc-times-colors"
+      | .ok o => panicSite E L p (i + 1) fs o
+      | _ => "unexplained"
+    | _ => "unexplained"
+
 def namesOf (fs : FilterSpec) : List FName :=
   match fs with
   | .single f => [f]
@@ -120,7 +142,9 @@ def handle (req impl : String) : String × String :=
         let fails : List String := implB.flatMap fun (L, tok) =>
           let mTok := ((mB.find? (·.1 == L)).map fun x => showBRes x.2).getD "?"
           match parseBTok tok with
-          | .panic c => [s!"fail:bounded-panic:{c}:{if mTok == tok then "modelled" else "unexplained"}:L={L}"]
+          | .panic c =>
+            let site := if mTok == tok then panicSite E L ps 0 (namesOf fs) data else "unexplained"
+            [s!"fail:bounded-panic:{c}:{site}:L={L}"]
           | .other => [s!"fail:bounded-abnormal:{String.ofList (tok.toList.take 40)}:L={L}"]
           | .ok len h =>
             (if len > L then [s!"fail:exceeds-limit:len={len}:L={L}"] else []) ++
